@@ -28,6 +28,34 @@ mod filterer;
 mod socket;
 mod state;
 
+/// Entry points for external conformance checking; only with `--cfg watchexec_verif`.
+#[cfg(watchexec_verif)]
+pub mod verif {
+	use std::ffi::OsString;
+
+	use clap::Parser;
+	use miette::Result;
+
+	pub use crate::{
+		args::Args,
+		config::make_config,
+		emits::{emits_to_environment, events_to_simple_format},
+		filterer::WatchexecFilterer,
+		state::{new as new_state, State},
+	};
+
+	/// Parse and normalise a command line exactly as `get_args()` does, minus logging setup.
+	pub async fn args_from(argv: Vec<OsString>) -> Result<Args> {
+		let mut args = Args::try_parse_from(argv).map_err(|e| miette::miette!("{e}"))?;
+		args.output.normalise()?;
+		args.command.normalise().await?;
+		args.filtering.normalise(&args.command).await?;
+		args.events
+			.normalise(&args.command, &args.filtering, args.only_emit_events)?;
+		Ok(args)
+	}
+}
+
 async fn run_watchexec(args: Args, state: state::State) -> Result<()> {
 	info!(version=%env!("CARGO_PKG_VERSION"), "constructing Watchexec from CLI");
 
